@@ -41,6 +41,8 @@ MdSame == UNCHANGED <<mdExpected, accepted, announced>>
 MdOf(n) == "v-general=g;v-node=" \o ToString(n)
 
 QuiescentOK ==
+  \* C18: once every call is served no per-call goroutine is left
+  /\ (\A t \in DOMAIN calls : t \in served) => Ev.callgoroutines = 0
   /\ \A t \in ctxEnded : t \in served                                          \* C08
   /\ \A t \in DOMAIN calls : calls[t].probe => (t \in served /\ t \in DOMAIN result /\ result[t] = "ok")   \* C09, C10
   /\ closeReturned =>
@@ -70,6 +72,9 @@ TNormal ==
   \/ /\ (Is("SenderExit") \/ Is("ReceiverExit")) /\ Step
      /\ UNCHANGED <<calls, ctxEnded, served, result, closeReturned, postClose>> /\ MdSame
   \/ /\ Is("Quiescent") /\ Step /\ QuiescentOK
+     /\ UNCHANGED <<calls, ctxEnded, served, result, closeReturned, postClose>> /\ MdSame
+  \* C18: the router tables are empty when the scenario is over
+  \/ /\ Is("Routers") /\ Step /\ Ev.count = 0
      /\ UNCHANGED <<calls, ctxEnded, served, result, closeReturned, postClose>> /\ MdSame
   \* C10: metadata and connect callback, once per connection
   \/ /\ Is("MetadataExpected") /\ Step /\ mdExpected' = TRUE
